@@ -1,6 +1,6 @@
 From Coq Require Import Extraction ExtrOcamlBasic.
-From LV Require Import Lib.Bytes Lib.Decimal Lib.Prelude Model.C20 Model.C20_Callers.
+From LV Require Import Lib.Bytes Lib.Decimal Lib.Prelude Model.C20 Model.C20_Callers Model.C20_Dict.
 Extraction Language OCaml.
 Extraction "c20_model.ml"
   prelude_byte_of_N prelude_N_of_byte prelude_Z_of_N prelude_Z_opp prelude_nat_of_N prelude_N_of_nat
-  format parse dec_exact effective.
+  format parse dec_exact effective to_lbc lookup.
